@@ -279,8 +279,11 @@ structure C03Flatten where
   zeroReturns : Bool
   /-- `if is_zero(item - 1): continue` is present (after the zero test) -/
   skipsOne : Bool
-  /-- `isinstance(item, C)`: `queue += item.children` -/
+  /-- `isinstance(item, C)`: the children of `item` go back into the queue -/
   cls : NaryOp
+  /-- where they go: `queue[0:0] = item.children` (true: spliced in place, at the FRONT of the
+  queue) or `queue += item.children` (false: appended at the END of the queue) -/
+  spliceFront : Bool
   /-- `len(done) == 0`: the literal returned -/
   empty : Int
   deriving Repr, DecidableEq, Inhabited
@@ -460,7 +463,8 @@ def c03FlattenLoop (P : C03Preds) (F : C03Flatten) :
     else if F.skipsOne && item.isOne then c03FlattenLoop P F fuel queue done
     else match item with
       | .nary op cs =>
-        if op == F.cls then c03FlattenLoop P F fuel (queue ++ cs) done
+        if op == F.cls then
+          c03FlattenLoop P F fuel (if F.spliceFront then cs ++ queue else queue ++ cs) done
         else c03FlattenLoop P F fuel queue (done ++ [item])
       | _ => c03FlattenLoop P F fuel queue (done ++ [item])
 
